@@ -23,6 +23,7 @@ var c10Receivers = []c10Recv{
 }
 
 //verif:property C10
+//verif:timeout 600 3600
 //verif:maxpaths 600000 8000000
 //verif:runinit github.com/go-python/gpython/py.init@type.go:1 github.com/go-python/gpython/py.init@exception.go:1 github.com/go-python/gpython/py.init@string.go:1 github.com/go-python/gpython/py.init@bytes.go:1 github.com/go-python/gpython/py.init@list.go:1 github.com/go-python/gpython/py.init@dict.go:1 github.com/go-python/gpython/py.init@set.go:1 github.com/go-python/gpython/py.init@float.go:1 github.com/go-python/gpython/py.init@complex.go:1 github.com/go-python/gpython/py.init@slice.go:1
 //verif:havoc math.Pow math.Mod
@@ -61,4 +62,5 @@ func VerifC10Methods() {
 	}
 	_, _ = Call(m, args, kwargs)
 	verifReach("called")
+	verifAssert(true, "the operation came back (value or error) without a Go panic, for every value of the symbolic operands on this path")
 }
